@@ -1,0 +1,107 @@
+//go:build verif
+
+package kubeeventsmanager
+
+import (
+	"context"
+	"sort"
+
+	"github.com/deckhouse/deckhouse/pkg/log"
+
+	klient "github.com/flant/kube-client/client"
+	kemtypes "github.com/flant/shell-operator/pkg/kube_events_manager/types"
+	"github.com/flant/shell-operator/pkg/metric"
+)
+
+// VerifInformer gives the verification harness access to one resourceInformer.
+type VerifInformer struct{ ei *resourceInformer }
+
+// VerifNewInformer builds a resourceInformer that is not connected to client-go: the harness calls
+// OnAdd/OnUpdate/OnDelete itself, exactly as the informer's delivery goroutine would.
+func VerifNewInformer(cfg *MonitorConfig, mstor metric.Storage, cb func(kemtypes.KubeEvent)) *VerifInformer {
+	ei := newResourceInformer("", "", &resourceInformerConfig{mstor: mstor, eventCb: cb, monitor: cfg, logger: log.NewNop()})
+	return &VerifInformer{ei: ei}
+}
+
+func (v *VerifInformer) Is(p interface{}) bool {
+	ei, ok := p.(*resourceInformer)
+	return ok && ei == v.ei
+}
+func (v *VerifInformer) OnAdd(obj interface{})    { v.ei.OnAdd(obj, false) }
+func (v *VerifInformer) OnUpdate(obj interface{}) { v.ei.OnUpdate(nil, obj) }
+func (v *VerifInformer) OnDelete(obj interface{}) { v.ei.OnDelete(obj) }
+func (v *VerifInformer) CachedObjects() []kemtypes.ObjectAndFilterResult {
+	return v.ei.getCachedObjects()
+}
+func (v *VerifInformer) EnableKubeEventCb() { v.ei.enableKubeEventCb() }
+
+// State projects the informer's protected state (takes both locks briefly).
+func (v *VerifInformer) State() (cache map[string]string, buf []kemtypes.KubeEvent, enabled bool) {
+	cache = map[string]string{}
+	v.ei.cacheLock.RLock()
+	for k, o := range v.ei.cachedObjects {
+		cache[k] = o.Metadata.Checksum
+	}
+	v.ei.cacheLock.RUnlock()
+	v.ei.eventBufLock.Lock()
+	buf = append(buf, v.ei.eventBuf...)
+	enabled = v.ei.eventCbEnabled
+	v.ei.eventBufLock.Unlock()
+	return
+}
+
+// VerifMonitor gives access to a monitor created by NewMonitor.
+type VerifMonitor struct{ m *monitor }
+
+func VerifNewMonitor(ctx context.Context, client *klient.Client, mstor metric.Storage, cfg *MonitorConfig, cb func(kemtypes.KubeEvent)) *VerifMonitor {
+	return &VerifMonitor{m: NewMonitor(ctx, client, mstor, cfg, cb, log.NewNop())}
+}
+func (v *VerifMonitor) Monitor() Monitor { return v.m }
+func (v *VerifMonitor) Is(p interface{}) bool {
+	m, ok := p.(*monitor)
+	return ok && m == v.m
+}
+
+// NsAdd / NsDelete invoke the namespace informer's callbacks as client-go would.
+func (v *VerifMonitor) NsAdd(obj interface{})    { v.m.NamespaceInformer.OnAdd(obj, false) }
+func (v *VerifMonitor) NsDelete(obj interface{}) { v.m.NamespaceInformer.OnDelete(obj) }
+func (v *VerifMonitor) EventsEnabled() bool      { return v.m.eventsEnabled }
+
+// VaryingEnabled reports namespace -> eventCbEnabled of its informers (all must agree).
+func (v *VerifMonitor) VaryingEnabled() map[string]bool {
+	out := map[string]bool{}
+	v.m.VaryingInformers.Range(func(ns string, infs []*resourceInformer) bool {
+		en := true
+		for _, i := range infs {
+			i.eventBufLock.Lock()
+			en = en && i.eventCbEnabled
+			i.eventBufLock.Unlock()
+		}
+		out[ns] = en
+		return true
+	})
+	return out
+}
+
+// VaryingBuffered reports namespace -> number of buffered events.
+func (v *VerifMonitor) VaryingBuffered() map[string]int {
+	out := map[string]int{}
+	v.m.VaryingInformers.Range(func(ns string, infs []*resourceInformer) bool {
+		n := 0
+		for _, i := range infs {
+			i.eventBufLock.Lock()
+			n += len(i.eventBuf)
+			i.eventBufLock.Unlock()
+		}
+		out[ns] = n
+		return true
+	})
+	return out
+}
+
+func (v *VerifMonitor) Namespaces() []string {
+	var out []string
+	v.m.VaryingInformers.Range(func(ns string, _ []*resourceInformer) bool { out = append(out, ns); return true })
+	sort.Strings(out)
+	return out
+}
